@@ -13,6 +13,7 @@ Case grammar (one line):   <N>[n]|<step>;<step>;...
          | rm:<relpattern>                   PR_COMMAND_REMOVEDATA
          | su:<abspattern> | sq:<abspattern> subscribe; sq = quiet subscription + GETDATA of the same pattern
          | un:<abspattern> | gd:<abspattern> unsubscribe; PR_COMMAND_GETDATA
+         | ua                                unsubscribe from everything (REMOVEPARAMETERS "SUBSCRIBE:*"; alone in its step)
          | rs:<0|1> | mx:<n>                 reflect-to-self parameter; max update-message items
          | xsd:<relpath>:<0|1>:<b>           SetDataNode()        | xcl:<owner>/<relpath>:<reldst>:<0|1>:<b>  CloneDataNodeSubtree()
          | xmv:<relpattern>:<b>              MoveIndexEntries()   | xrm:<relpattern>                           RemoveDataNodes()
@@ -101,8 +102,10 @@ def gen_step(rng, n, api_ok):
     r = rng.random()
     if api_ok and r < 0.12:
         return "%d>%s" % (sid, "&".join(gen_api_cmd(rng, n, sid) for _ in range(rng.choice([1, 1, 2]))))
-    if r < 0.17:
+    if r < 0.165:
         return "%d>un:%s" % (sid, rng.choice(SUBPATS))
+    if r < 0.17:
+        return "%d>ua" % sid
     if r < 0.18 and n > 1:
         return "%d>dt" % sid
     if r < 0.19 and n < 4:
@@ -153,6 +156,8 @@ DIRECTED = [
     "2|1>su:*;0>sd:x:1;0>sd:y:1;0>ro:x:-;1>gd:*;0>rm:x;0>rm:*",
     # unsubscribe, mutate, subscribe again; quiet subscribe + GETDATA; subscribing twice
     "2|1>su:*/a;0>sd:a:0;0>io:a:-,-;1>un:*/a;0>io:a:I0;0>rm:a/I1;1>sq:*/a;0>io:a:-;1>su:*/a;1>su:0/a;0>ro:a/*:-;1>un:*/a;0>ro:a/I0:-",
+    # several subscriptions dropped at once by a wildcarded REMOVEPARAMETERS
+    "2|1>su:*/a;1>su:0/a;1>su:*/a/*;0>sd:a:0;0>io:a:-,-;0>io:a/I0:-;1>ua;0>io:a:I0;0>rm:a/I1;1>gd:*/a;1>su:*/a;0>io:a:-",
     # removal of every entry, then re-subscription to an empty index
     "2|1>su:*/a;0>sd:a:0;0>io:a:-,-;1>un:*/a;0>rm:a/*;1>su:*/a;0>io:a:-",
     # wildcard parents
